@@ -106,7 +106,7 @@ def loginCapable : Option Proto → Bool
 /-- a routing tag `<hex>_<hex>` read with the C spelling rules, without 32-bit wrap -/
 def tagOf (tag : Bytes) : Option (Int × Nat) :=
   let (idv, e) := strtol 16 tag
-  if tag.getD e 0 != 95 then none
+  if e == 0 || tag.getD e 0 != 95 then none         -- both numbers must be there
   else
     let rest := tag.drop (e + 1)
     let (sv, e2) := strtoul 16 rest
